@@ -1323,6 +1323,17 @@ def main(argv):
                     if fn.endswith(".ndjson"):
                         try: os.remove(os.path.join(root, fn))
                         except OSError: pass
+                    elif fn.endswith(".out"):
+                        # TLC output carrying exported behaviours runs to gigabytes; its summary (the tail) is what is worth keeping
+                        fp = os.path.join(root, fn)
+                        try:
+                            if os.path.getsize(fp) > 20 * 1024 * 1024:
+                                with open(fp, "rb") as f:
+                                    f.seek(-65536, 2)
+                                    tail = f.read()
+                                with open(fp, "wb") as f:
+                                    f.write(b"[... truncated after a passing run ...]\n" + tail)
+                        except OSError: pass
         return rc
     except ToolError as e:
         print("TOOL-ERROR:", e)
